@@ -86,6 +86,7 @@ void sim_sched_cfg_from_plan(SchedCfg* c, const Plan* p);
 void sim_sched_plan_defaults(Plan* p, Rng* r, int faults);     /* writes sched_* params */
 void sim_sched_reset(const SchedCfg* c);
 void sim_sched_finish(SchedStats* out);          /* checks all threads done; fills stats */
+void sim_sched_stall_self(long decisions);     /* fault: the calling thread is descheduled for that many scheduling decisions (unless nothing else can run) */
 void sim_yield(void);                            /* caller polling: let any other enabled thread run first */
 int  sim_self(void);
 int  sim_sched_live_threads(void);               /* threads created and not yet DONE */
@@ -124,7 +125,9 @@ void   sim_hook_probe_clear(int id);
 size_t sim_hook_probe_value(int id);      /* last value reported by ZSTD_VERIF_PROBE_VAL */
 void   sim_hook_set_coin(int site, int per1024);   /* ZSTD_VC_* */
 long   sim_hook_coin_fired(int site);
-void   sim_hook_set_index_jump(size_t bytes);      /* applied at the next frame start that continues its index */
+void   sim_hook_set_index_jump(size_t bytes);
+void   sim_hook_set_stall(int site, long nth, long decisions);   /* ZSTD_VS_*: the nth passage of that site stalls the thread */
+long   sim_hook_stall_fired(void);      /* applied at the next frame start that continues its index */
 /* libc allocator seam (--wrap): armed only around the call under test */
 void   sim_wrap_arm(long fail1, long fail2);
 void   sim_wrap_disarm(void);
